@@ -85,7 +85,7 @@ def _drop_ops(spec, ti, drop):
     drop = set(drop)
     # dependants: danger whose fire is dropped
     for i, op in enumerate(prog):
-        if op.get("op") == "danger" and op["fire"] in drop:
+        if op.get("op") in ("danger", "at_dist") and op["fire"] in drop:
             drop.add(i)
     # a calculator's new_calc must stay if a kept op uses it
     used = {op.get("calc") for i, op in enumerate(prog) if i not in drop and op.get("op") in ("fire", "zero", "elev")}
@@ -100,7 +100,7 @@ def _drop_ops(spec, ti, drop):
         remap[i] = len(new)
         new.append(op)
     for op in new:
-        if op.get("op") == "danger":
+        if op.get("op") in ("danger", "at_dist"):
             op["fire"] = remap[op["fire"]]
     s["programs"][ti] = new
     nf = []
